@@ -2,5 +2,7 @@ SPECIFICATION Spec
 CONSTANTS
   MaxBurst = 12
   TwoBitFrames = {1, 2, 3, 4, 5, 6, 7, 8, 9}
+  EmitEvery = 53
 INVARIANT NeverOk
+CONSTRAINT EmitCases
 CHECK_DEADLOCK FALSE
